@@ -505,3 +505,372 @@ Lemma empty_entrypoint_changes C lam :
   of_mich C lam TAddress (to_mich C LegacyOptimized v) = Ok (VAddr (KT1, repeat x00 20) None) /\
   has_type lam TAddress v = false.
 Proof. repeat split; vm_compute; reflexivity. Qed.
+
+(* ---------------------------------------------------------------- what from_micheline_value builds is well typed
+   (so the round trip covers every value pytezos can construct from Micheline, except addresses
+   spelt with an empty entrypoint) *)
+
+(* every string of a Micheline tree is valid UTF-8 (Python str) *)
+Fixpoint str_utf8 (n : node) : bool :=
+  match n with
+  | NStr s => utf8_valid s
+  | NPrim _ args _ => (fix go (l : list node) : bool :=
+                         match l with [] => true | x :: r => str_utf8 x && go r end) args
+  | NSeq l => (fix go (l : list node) : bool :=
+                 match l with [] => true | x :: r => str_utf8 x && go r end) l
+  | _ => true
+  end.
+
+(* no address-like value with a present but empty entrypoint part ("KT1...%") *)
+Fixpoint no_empty_ep (v : val) : bool :=
+  match v with
+  | VAddr _ (Some []) => false
+  | VSome a | VLeft a | VRight a => no_empty_ep a
+  | VPair a b => no_empty_ep a && no_empty_ep b
+  | VList l => (fix go (l : list val) : bool :=
+                  match l with [] => true | x :: r => no_empty_ep x && go r end) l
+  | VMap l => (fix go (l : list (val * val)) : bool :=
+                 match l with [] => true | (k, x) :: r => no_empty_ep k && no_empty_ep x && go r end) l
+  | _ => true
+  end.
+
+Record codec_sound (C : codec) : Prop := {
+  addr_snd : forall s a, addr_of_txt C s = Ok a -> wf_address a;
+  key_snd : forall s k, key_of_txt C s = Ok k -> wf_public_key k;
+  sig_snd : forall s raw, sig_of_txt C s = Ok raw -> (List.length raw = 64 \/ List.length raw = 96)%nat;
+  cid_snd : forall s c, cid_of_txt C s = Ok c -> List.length c = 4%nat
+}.
+
+Lemma str_utf8_seq l : str_utf8 (NSeq l) = forallb str_utf8 l.
+Proof. cbn [str_utf8]. induction l as [|x l IH]; [reflexivity|]. cbn [forallb]. rewrite <- IH. reflexivity. Qed.
+
+Lemma str_utf8_prim t l a : str_utf8 (NPrim t l a) = forallb str_utf8 l.
+Proof. cbn [str_utf8]. induction l as [|x l IH]; [reflexivity|]. cbn [forallb]. rewrite <- IH. reflexivity. Qed.
+
+Lemma no_empty_ep_list l : no_empty_ep (VList l) = forallb no_empty_ep l.
+Proof. cbn [no_empty_ep]. induction l as [|x l IH]; [reflexivity|]. cbn [forallb]. rewrite <- IH. reflexivity. Qed.
+
+Lemma no_empty_ep_map l :
+  no_empty_ep (VMap l) = forallb (fun e => no_empty_ep (fst e) && no_empty_ep (snd e)) l.
+Proof.
+  cbn [no_empty_ep]. induction l as [|[k x] l IH]; [reflexivity|]. cbn [forallb fst snd]. rewrite <- IH. reflexivity.
+Qed.
+
+(* the part of a valid UTF-8 string after the first '%' is valid UTF-8 *)
+Lemma high_not_pct b : (128 <= Byte.to_N b)%N -> byte_eqb b x25 = false.
+Proof.
+  intro H. destruct (byte_eqb b x25) eqn:E; [|reflexivity].
+  apply byte_eqb_spec in E. subst b. vm_compute in H. exfalso. apply H. reflexivity.
+Qed.
+
+Lemma in_range_high lo hi b : (128 <= lo)%N -> in_range lo hi b = true -> byte_eqb b x25 = false.
+Proof.
+  intros Hlo H. unfold in_range in H. apply andb_true_iff in H. destruct H as [H _].
+  apply N.leb_le in H. apply high_not_pct. lia.
+Qed.
+
+Lemma utf8_after_pct_aux : forall n s e, (List.length s <= n)%nat ->
+  utf8_valid s = true -> after_pct s = Some e -> utf8_valid e = true.
+Proof.
+  induction n as [|n IH]; intros s e Hl Hu Ha.
+  - destruct s; [discriminate Ha | cbn [List.length] in Hl; lia].
+  - destruct s as [|a r]; [discriminate Ha|]. cbn [List.length] in Hl.
+    cbn [utf8_valid] in Hu. cbn [after_pct] in Ha.
+    destruct (Byte.to_N a <? 128)%N eqn:E1.
+    + destruct (byte_eqb a x25); [injection Ha as <-; exact Hu|]. apply (IH r e); [lia|exact Hu|exact Ha].
+    + assert (Ea : byte_eqb a x25 = false) by (apply high_not_pct; apply N.ltb_ge in E1; exact E1).
+      rewrite Ea in Ha.
+      destruct (Byte.to_N a <? 194)%N; [discriminate Hu|].
+      destruct (Byte.to_N a <? 224)%N.
+      { destruct r as [|b r']; [discriminate Hu|]. apply andb_true_iff in Hu. destruct Hu as [Hb Hu].
+        cbn [after_pct] in Ha. rewrite (in_range_high 128 191 b ltac:(lia) Hb) in Ha.
+        apply (IH r' e); [cbn [List.length] in Hl; lia|exact Hu|exact Ha]. }
+      destruct (Byte.to_N a <? 240)%N.
+      { destruct r as [|b [|c r']]; try discriminate Hu.
+        rewrite !andb_true_iff in Hu. destruct Hu as [[Hb Hc] Hu].
+        assert (Eb : byte_eqb b x25 = false).
+        { destruct (Byte.to_N a =? 224)%N; [apply (in_range_high 160 191 b ltac:(lia) Hb)|].
+          destruct (Byte.to_N a =? 237)%N; [apply (in_range_high 128 159 b ltac:(lia) Hb)|].
+          apply (in_range_high 128 191 b ltac:(lia) Hb). }
+        cbn [after_pct] in Ha. rewrite Eb, (in_range_high 128 191 c ltac:(lia) Hc) in Ha.
+        apply (IH r' e); [cbn [List.length] in Hl; lia|exact Hu|exact Ha]. }
+      destruct (Byte.to_N a <? 245)%N; [|discriminate Hu].
+      destruct r as [|b [|c [|d r']]]; try discriminate Hu.
+      rewrite !andb_true_iff in Hu. destruct Hu as [[[Hb Hc] Hd] Hu].
+      assert (Eb : byte_eqb b x25 = false).
+      { destruct (Byte.to_N a =? 240)%N; [apply (in_range_high 144 191 b ltac:(lia) Hb)|].
+        destruct (Byte.to_N a =? 244)%N; [apply (in_range_high 128 143 b ltac:(lia) Hb)|].
+        apply (in_range_high 128 191 b ltac:(lia) Hb). }
+      cbn [after_pct] in Ha.
+      rewrite Eb, (in_range_high 128 191 c ltac:(lia) Hc), (in_range_high 128 191 d ltac:(lia) Hd) in Ha.
+      apply (IH r' e); [cbn [List.length] in Hl; lia|exact Hu|exact Ha].
+Qed.
+
+Lemma utf8_after_pct s e : utf8_valid s = true -> after_pct s = Some e -> utf8_valid e = true.
+Proof. apply (utf8_after_pct_aux (List.length s)). lia. Qed.
+
+Lemma map_result_inv {A B} (f : A -> result B) : forall l l',
+  map_result f l = Ok l' -> Forall2 (fun x y => f x = Ok y) l l'.
+Proof.
+  induction l as [|x l IH]; intros l' H; cbn [map_result] in H.
+  - injection H as <-. constructor.
+  - destruct (f x) as [y|] eqn:E; [|discriminate H]. cbn [bind] in H.
+    destruct (map_result f l) as [ys|] eqn:E2; [|discriminate H]. cbn [bind] in H.
+    injection H as <-. constructor; [exact E | apply IH; reflexivity].
+Qed.
+
+Section Soundness.
+  Variable C : codec.
+  Variable lam_norm : node -> result node.
+  Hypothesis HS : codec_sound C.
+  (* the instruction parser returns sequences in normal form *)
+  Hypothesis lam_idem : forall n c, lam_norm n = Ok c -> lam_norm c = Ok c /\ exists l, c = NSeq l.
+
+  Notation of_mich := (of_mich C lam_norm).
+  Notation has_type := (has_type lam_norm).
+
+  Lemma ep_ok_norm o :
+    match o with Some e => utf8_valid e = true | None => True end ->
+    match norm_ep o with Some [] => False | _ => True end ->
+    ep_ok (norm_ep o) = true.
+  Proof.
+    destruct o as [e|]; [|reflexivity]. cbn [norm_ep]. intros Hu Hn.
+    destruct (bytes_eqb e default_name) eqn:E; [reflexivity|].
+    cbn [ep_ok]. rewrite E, Hu. destruct e; [contradiction|reflexivity].
+  Qed.
+
+  Lemma addr_nonempty a o : no_empty_ep (VAddr a o) = true -> match o with Some [] => False | _ => True end.
+  Proof. destruct o as [[|c e]|]; cbn [no_empty_ep]; intro H; try exact I. discriminate H. Qed.
+
+  Lemma of_addr_sound cls n v :
+    str_utf8 n = true -> of_addr C cls n = Ok v -> no_empty_ep v = true ->
+    exists a ep, v = VAddr a ep /\ addr_ok cls a ep = true.
+  Proof.
+    intros Hu H Hn. destruct n; try discriminate H; cbn [of_addr] in H.
+    - unfold addr_of_text in H. destruct (addr_of_txt C (before_pct s)) as [a|] eqn:E; [|discriminate H].
+      cbn [bind] in H. destruct (class_admits cls (fst a)) eqn:Ek; [|discriminate H].
+      injection H as <-. exists a, (ep_of_str s). split; [reflexivity|].
+      unfold addr_ok. rewrite Ek. pose proof (addr_snd C HS _ _ E) as W. unfold wf_address in W. rewrite W.
+      cbn [Nat.eqb andb]. unfold ep_of_str in *. apply ep_ok_norm.
+      + destruct (after_pct s) as [e|] eqn:Ea; [|exact I]. cbn [str_utf8] in Hu. exact (utf8_after_pct s e Hu Ea).
+      + apply (addr_nonempty a). exact Hn.
+    - unfold addr_of_bytes in H. destruct (unforge_address (firstn 22 b)) as [a|] eqn:E; [|discriminate H].
+      cbn [bind] in H.
+      destruct (utf8_valid (skipn 22 b) && class_admits cls (fst a)) eqn:Ek; [|discriminate H].
+      apply andb_true_iff in Ek. destruct Ek as [Eu Ek]. injection H as <-.
+      eexists; eexists. split; [reflexivity|].
+      unfold addr_ok. rewrite Ek. destruct (unforge_address_sound _ _ E) as [W _]. unfold wf_address in W. rewrite W.
+      cbn [Nat.eqb andb]. apply ep_ok_norm.
+      + destruct (Nat.ltb 22 (List.length b)); [exact Eu|exact I].
+      + apply (addr_nonempty a). exact Hn.
+  Qed.
+
+  Definition PW (t : ty) : Prop :=
+    forall n v, str_utf8 n = true -> of_mich t n = Ok v -> no_empty_ep v = true -> has_type t v = true.
+
+  Lemma pw_items a items l :
+    PW a -> forallb str_utf8 items = true -> map_result (of_mich a) items = Ok l ->
+    forallb no_empty_ep l = true -> forallb (has_type a) l = true.
+  Proof.
+    intros IH Hu H Hn. apply map_result_inv in H.
+    induction H as [|x y items l Hxy _ IHl]; [reflexivity|].
+    cbn [forallb] in *. apply andb_true_iff in Hu. destruct Hu as [Hu1 Hu2].
+    apply andb_true_iff in Hn. destruct Hn as [Hn1 Hn2].
+    rewrite (IH x y Hu1 Hxy Hn1). apply IHl; assumption.
+  Qed.
+
+  Ltac bytes_like n H := destruct n; try discriminate H; injection H as <-; reflexivity.
+
+  Lemma parsed_well_typed : forall t, PW t.
+  Proof.
+    induction t; intros n v Hu H Hn; cbn [Values.of_mich] in H; try discriminate H.
+    - (* unit *) destruct (is_prim0 T_Unit n); [injection H as <-; reflexivity|discriminate H].
+    - (* bool *) destruct (is_prim0 T_True n); [injection H as <-; reflexivity|].
+      destruct (is_prim0 T_False n); [injection H as <-; reflexivity|discriminate H].
+    - (* int *) destruct n; try discriminate H. injection H as <-. reflexivity.
+    - (* nat *) destruct n; try discriminate H. destruct (0 <=? z)%Z eqn:E; [|discriminate H].
+      injection H as <-. exact E.
+    - (* mutez *) destruct n; try discriminate H.
+      destruct ((0 <=? z)%Z && (z <? 2 ^ 63)%Z) eqn:E; [|discriminate H]. injection H as <-. exact E.
+    - (* timestamp *) destruct n; try discriminate H.
+      + injection H as <-. reflexivity.
+      + destruct (parse_ts s); [|discriminate H]. injection H as <-. reflexivity.
+    - (* string *) destruct n; try discriminate H. destruct (is_ascii s) eqn:E; [|discriminate H].
+      injection H as <-. exact E.
+    - (* bytes *) bytes_like n H.
+    - (* fr *) assert (B : forall z, ((0 <=? z mod fr_modulus) && (z mod fr_modulus <? fr_modulus))%Z = true).
+      { intro z. pose proof (Z.mod_pos_bound z fr_modulus ltac:(reflexivity)) as [B1 B2].
+        apply andb_true_iff. split; [apply Z.leb_le; exact B1 | apply Z.ltb_lt; exact B2]. }
+      destruct n; try discriminate H.
+      + injection H as <-. apply B.
+      + destruct (Nat.leb (List.length b) 32); [|discriminate H]. injection H as <-. apply B.
+    - (* g1 *) bytes_like n H.
+    - (* g2 *) bytes_like n H.
+    - (* chest *) bytes_like n H.
+    - (* chest_key *) bytes_like n H.
+    - (* address *) destruct (of_addr_sound AnyAddress n v Hu H Hn) as (a & ep & -> & Hok). exact Hok.
+    - (* contract *) destruct (of_addr_sound AnyAddress n v Hu H Hn) as (a & ep & -> & Hok). exact Hok.
+    - (* txr *) destruct (of_addr_sound TxrAddress n v Hu H Hn) as (a & ep & -> & Hok). exact Hok.
+    - (* key *) destruct n; try discriminate H.
+      + destruct (key_of_txt C s) as [k|] eqn:E; [|discriminate H]. injection H as <-.
+        cbn [Values.has_type]. apply Nat.eqb_eq. exact (key_snd C HS _ _ E).
+      + destruct (unforge_public_key b) as [k|] eqn:E; [|discriminate H]. injection H as <-.
+        cbn [Values.has_type]. apply Nat.eqb_eq. exact (proj1 (unforge_public_key_sound _ _ E)).
+    - (* key_hash *) destruct n; try discriminate H.
+      + destruct (addr_of_txt C s) as [a|] eqn:E; [|discriminate H]. cbn [bind] in H.
+        destruct (is_implicit (fst a)) eqn:Ei; [|discriminate H]. injection H as <-.
+        cbn [Values.has_type]. rewrite Ei. pose proof (addr_snd C HS _ _ E) as W. unfold wf_address in W.
+        rewrite W. reflexivity.
+      + unfold unforge_key_hash in H. destruct (unforge_address b) as [[k h]|] eqn:E; [|discriminate H].
+        destruct (is_implicit k) eqn:Ei; [|discriminate H]. cbn [bind] in H. injection H as <-.
+        cbn [Values.has_type fst snd]. rewrite Ei. destruct (unforge_address_sound _ _ E) as [W _].
+        unfold wf_address in W. cbn [snd] in W. rewrite W. reflexivity.
+    - (* signature *) destruct n; try discriminate H.
+      + destruct (sig_of_txt C s) as [raw|] eqn:E; [|discriminate H]. injection H as <-.
+        cbn [Values.has_type]. destruct (sig_snd C HS _ _ E) as [L|L]; rewrite L; reflexivity.
+      + unfold unforge_signature in H.
+        destruct (Nat.eqb (List.length b) 64) eqn:E1.
+        * injection H as <-. cbn [Values.has_type snd]. rewrite E1. reflexivity.
+        * destruct (Nat.eqb (List.length b) 96) eqn:E2; [|discriminate H].
+          injection H as <-. cbn [Values.has_type snd]. rewrite E2. apply orb_true_r.
+    - (* chain id *) destruct n; try discriminate H.
+      + destruct (cid_of_txt C s) as [c|] eqn:E; [|discriminate H]. injection H as <-.
+        cbn [Values.has_type]. apply Nat.eqb_eq. exact (cid_snd C HS _ _ E).
+      + unfold unforge_chain_id in H. destruct (Nat.eqb (List.length b) 4) eqn:E; [|discriminate H].
+        injection H as <-. exact E.
+    - (* option *) destruct n; try discriminate H. destruct args as [|x [|y r]]; try discriminate H.
+      + destruct (byte_eqb tag T_None); [injection H as <-; reflexivity|discriminate H].
+      + destruct (byte_eqb tag T_Some); [|discriminate H].
+        destruct (of_mich t x) as [w|] eqn:E; [|discriminate H]. injection H as <-.
+        rewrite str_utf8_prim in Hu. cbn [forallb] in Hu. apply andb_true_iff in Hu.
+        cbn [Values.has_type]. apply (IHt x w (proj1 Hu) E Hn).
+    - (* or *) destruct n; try discriminate H. destruct args as [|x [|y r]]; try discriminate H.
+      rewrite str_utf8_prim in Hu. cbn [forallb] in Hu. apply andb_true_iff in Hu.
+      destruct (byte_eqb tag T_Left).
+      + destruct (of_mich t1 x) as [w|] eqn:E; [|discriminate H]. injection H as <-.
+        cbn [Values.has_type]. apply (IHt1 x w (proj1 Hu) E Hn).
+      + destruct (byte_eqb tag T_Right); [|discriminate H].
+        destruct (of_mich t2 x) as [w|] eqn:E; [|discriminate H]. injection H as <-.
+        cbn [Values.has_type]. apply (IHt2 x w (proj1 Hu) E Hn).
+    - (* pair *)
+      assert (R : forall args, forallb str_utf8 args = true ->
+                  read_pair C lam_norm t1 t2 args = Ok v -> has_type (TPair t1 t2) v = true).
+      { intros args Ha Hr. destruct args as [|x [|y [|z r]]]; try discriminate Hr; cbn [read_pair] in Hr.
+        - destruct (of_mich t1 x) as [va|] eqn:Ea; [|discriminate Hr]. cbn [bind] in Hr.
+          destruct (of_mich t2 y) as [vb|] eqn:Eb; [|discriminate Hr]. injection Hr as <-.
+          cbn [forallb] in Ha. rewrite !andb_true_iff in Ha. destruct Ha as [Hx [Hy _]].
+          cbn [no_empty_ep] in Hn. apply andb_true_iff in Hn. destruct Hn as [N1 N2].
+          cbn [Values.has_type]. rewrite (IHt1 x va Hx Ea N1), (IHt2 y vb Hy Eb N2). reflexivity.
+        - destruct (of_mich t1 x) as [va|] eqn:Ea; [|discriminate Hr]. cbn [bind] in Hr.
+          destruct (of_mich t2 (NSeq (y :: z :: r))) as [vb|] eqn:Eb; [|discriminate Hr]. injection Hr as <-.
+          cbn [forallb] in Ha. apply andb_true_iff in Ha. destruct Ha as [Hx Hrest].
+          cbn [no_empty_ep] in Hn. apply andb_true_iff in Hn. destruct Hn as [N1 N2].
+          cbn [Values.has_type]. rewrite (IHt1 x va Hx Ea N1).
+          rewrite (IHt2 (NSeq (y :: z :: r)) vb); [reflexivity| |exact Eb|exact N2].
+          rewrite str_utf8_seq. exact Hrest. }
+      destruct n; try discriminate H.
+      + destruct (byte_eqb tag T_Pair) eqn:Et; [|discriminate H].
+        apply byte_eqb_spec in Et. subst tag.
+        rewrite str_utf8_prim in Hu. apply (R args Hu). rewrite <- (of_mich_pair_prim C lam_norm t1 t2 args annots).
+        cbn [Values.of_mich]. exact H.
+      + rewrite str_utf8_seq in Hu. apply (R items Hu). rewrite <- (of_mich_pair_seq C lam_norm t1 t2 items).
+        cbn [Values.of_mich]. exact H.
+    - (* list *) destruct n; try discriminate H.
+      destruct (map_result (of_mich t) items) as [l|] eqn:E; [|discriminate H]. injection H as <-.
+      rewrite str_utf8_seq in Hu. rewrite no_empty_ep_list in Hn.
+      cbn [Values.has_type]. apply (pw_items t items l IHt Hu E Hn).
+    - (* set *) destruct n; try discriminate H.
+      destruct (map_result (of_mich t) items) as [l|] eqn:E; [|discriminate H]. cbn [bind] in H.
+      destruct (sorted_strict l) eqn:S; [|discriminate H]. injection H as <-.
+      rewrite str_utf8_seq in Hu. rewrite no_empty_ep_list in Hn.
+      cbn [Values.has_type]. rewrite (pw_items t items l IHt Hu E Hn), S. reflexivity.
+    - (* map *) destruct n; try discriminate H.
+      match type of H with context [map_result ?f items] => destruct (map_result f items) as [l|] eqn:E; [|discriminate H] end.
+      cbn [bind] in H. destruct (sorted_strict (map fst l)) eqn:S; [|discriminate H]. injection H as <-.
+      rewrite str_utf8_seq in Hu. rewrite no_empty_ep_map in Hn.
+      cbn [Values.has_type]. rewrite S, andb_true_r. clear S.
+      apply map_result_inv in E.
+      induction E as [|x y items l Hxy _ IHl]; [reflexivity|].
+      cbn [forallb] in *. apply andb_true_iff in Hu. destruct Hu as [Hu1 Hu2].
+      apply andb_true_iff in Hn. destruct Hn as [Hn1 Hn2].
+      rewrite IHl by assumption. rewrite andb_true_r.
+      unfold elt_parts in Hxy. destruct x; try discriminate Hxy.
+      destruct args as [|k [|w [|? ?]]]; try discriminate Hxy.
+      destruct (byte_eqb tag T_Elt); [|discriminate Hxy]. cbn [bind fst snd] in Hxy.
+      destruct (of_mich t1 k) as [vk|] eqn:Ek; [|discriminate Hxy]. cbn [bind] in Hxy.
+      destruct (of_mich t2 w) as [vw|] eqn:Ew; [|discriminate Hxy]. injection Hxy as <-.
+      rewrite str_utf8_prim in Hu1. cbn [forallb] in Hu1. rewrite !andb_true_iff in Hu1. destruct Hu1 as [U1 [U2 _]].
+      cbn [fst snd] in *. apply andb_true_iff in Hn1. destruct Hn1 as [M1 M2].
+      rewrite (IHt1 k vk U1 Ek M1), (IHt2 w vw U2 Ew M2). reflexivity.
+    - (* lambda *) destruct n; try discriminate H.
+      destruct (lam_norm (NSeq items)) as [c|] eqn:E; [|discriminate H]. injection H as <-.
+      destruct (lam_idem _ _ E) as [Hc (l & ->)]. cbn [Values.has_type]. rewrite Hc.
+      cbn [result_eqb]. apply node_eqb_spec. reflexivity.
+  Qed.
+End Soundness.
+
+(* every value from_micheline_value builds (without an empty entrypoint) round-trips in every mode *)
+Lemma parsed_roundtrip C lam :
+  codec_ok C -> codec_sound C ->
+  (forall n c, lam n = Ok c -> lam c = Ok c /\ exists l, c = NSeq l) ->
+  forall t n v m, str_utf8 n = true -> of_mich C lam t n = Ok v -> no_empty_ep v = true ->
+  of_mich C lam t (to_mich C m v) = Ok v.
+Proof.
+  intros HC HS Hl t n v m Hu H Hn. apply roundtrip; [exact HC|].
+  exact (parsed_well_typed C lam HS Hl t n v Hu H Hn).
+Qed.
+
+(* ---------------------------------------------------------------- the real codec is sound *)
+
+Section RealCodecSound.
+  Variable sha256 : bytes -> bytes.
+  Hypothesis Hsha : sha_ok sha256.
+
+  (* the payload length of every row carrying a given textual prefix *)
+  Definition rows_plen (tp : bytes) (n : nat) : bool :=
+    forallb (fun r => negb (bytes_eqb (tpre r) tp) || Nat.eqb (plen r) n) table43.
+
+  Lemma decode_kinded_len {K} (kinds : list K) (tp : K -> bytes) (len : K -> nat) s k p :
+    (forall k', In k' kinds -> rows_plen (tp k') (len k') = true) ->
+    decode_kinded sha256 table43 kinds tp s = Ok (k, p) -> List.length p = len k.
+  Proof.
+    intros Hrows H. unfold decode_kinded in H.
+    destruct (find_dec table43 s) as [r|] eqn:Ef; [|discriminate H].
+    destruct (kind_of_tpre kinds tp (tpre r)) as [k'|] eqn:Ek; [|discriminate H].
+    destruct (base58_decode sha256 table43 s) as [p'|] eqn:Ed; [|discriminate H].
+    cbn [bind] in H. injection H as -> ->.
+    apply (any_decode_iff_all sha256 table43 Hsha table43_full_ok) in Ed. destruct Ed as [r1 He].
+    destruct (table_full_split _ table43_full_ok) as [Hr [Hu _]].
+    destruct (encodes_shape sha256 Hsha table43 Hr _ _ _ He) as [Hl Hp].
+    destruct He as [Hin [Hlen _]].
+    rewrite (find_dec_unique table43 Hu r1 s Hin Hl Hp) in Ef. injection Ef as ->.
+    unfold kind_of_tpre in Ek. apply find_some in Ek. destruct Ek as [Hk Et].
+    apply bytes_eqb_spec in Et.
+    specialize (Hrows k Hk). unfold rows_plen in Hrows. rewrite forallb_forall in Hrows.
+    specialize (Hrows r Hin). rewrite Et in Hrows.
+    assert (E : bytes_eqb (tpre r) (tpre r) = true) by (apply bytes_eqb_spec; reflexivity).
+    rewrite E in Hrows. cbn [negb orb] in Hrows. apply Nat.eqb_eq in Hrows. congruence.
+  Qed.
+
+  Lemma real_codec_sound : codec_sound (real_codec sha256 table43).
+  Proof.
+    constructor; cbn [addr_of_txt key_of_txt sig_of_txt cid_of_txt real_codec].
+    - intros s [k h] H. unfold wf_address. cbn [snd].
+      apply (decode_kinded_len all_addr_kinds addr_tpre (fun _ => 20%nat) s k h); [|exact H].
+      intros k' _. destruct k'; vm_compute; reflexivity.
+    - intros s [k p] H. unfold wf_public_key. cbn [fst snd].
+      apply (decode_kinded_len all_key_kinds key_tpre key_len s k p); [|exact H].
+      intros k' _. destruct k'; vm_compute; reflexivity.
+    - intros s raw H.
+      destruct (decode_kinded sha256 table43 all_sig_kinds sig_tpre s) as [[k p]|] eqn:E; [|discriminate H].
+      cbn [bind snd] in H. injection H as <-.
+      pose proof (decode_kinded_len all_sig_kinds sig_tpre sig_len s k p
+                    ltac:(intros k' _; destruct k'; vm_compute; reflexivity) E) as L.
+      destruct k; cbn [sig_len] in L; [left|left|left|left|right]; exact L.
+    - intros s c H.
+      destruct (decode_kinded sha256 table43 [tt] (fun _ => tx "Net") s) as [[k p]|] eqn:E; [|discriminate H].
+      cbn [bind snd] in H. injection H as <-.
+      apply (decode_kinded_len [tt] (fun _ => tx "Net") (fun _ => 4%nat) s k p); [|exact E].
+      intros k' _. vm_compute. reflexivity.
+  Qed.
+End RealCodecSound.
